@@ -249,7 +249,7 @@ def run(index, rep, tier):
     rmark = {const_value(c.args[0]) for c in calls_in(pcm.node) if call_name(c) == "endswith" and c.args}
     rep.floor("R09.6", "xsi:type values written", 6, len(wtypes))
     for t in sorted(wtypes):
-        rep.check(t in rtypes, "R09.6", wcm.qualname, "xsi:type nex:%s*" % t, fn_where(wcm), "xsi:type nex:%s* is dispatched by the reader" % t,
+        rep.check(any(t.startswith(rt) for rt in rtypes if rt), "R09.6", wcm.qualname, "xsi:type nex:%s*" % t, fn_where(wcm), "xsi:type nex:%s* is dispatched by the reader" % t,
                   "the NeXML writer marks a matrix as nex:%s... but the reader dispatches only on %s" % (t, sorted(x for x in rtypes if x)))
     rep.check("Seqs" in markups and "Seqs" in rmark and "Cells" in markups, "R09.6", wcm.qualname, "markup suffixes %s / reader %s" % (sorted(markups), sorted(x for x in rmark if x)), fn_where(wcm),
               "markup suffixes Seqs/Cells agree (reader treats non-Seqs as Cells)", "the Seqs/Cells markup suffixes of writer and reader disagree")
